@@ -1,9 +1,34 @@
 (* C02 — exclusive in-flight ownership; redelivery only after REQ/timeout; FIN is final.
    Property theorems only. *)
 From Coq Require Import List NArith ZArith.
-From NSQV Require Import model.Core proofs.CoreBase proofs.CoreFlow.
+From NSQV Require Import model.Core proofs.CoreBase proofs.CoreFlow proofs.CoreUnique.
 Import ListNotations.
 Open Scope N_scope.
+
+(* In every history whose published ids are fresh (what C12 guarantees per topic), on
+   every channel each message id occurs at most once among {queued, in flight, deferred,
+   finished}: so it is held by at most one consumer at a time, a finished message is
+   never delivered on that channel again, and a message is delivered again only after it
+   left the in-flight set (by REQ or by a timeout scan, the only steps that move an
+   in-flight entry back to the queue). *)
+Theorem C02_single_holder : forall cfg ops, fresh_history [] ops = true -> AllTopics UniqueTopic (run cfg init ops).
+Proof. exact unique_reachable. Qed.
+Print Assumptions C02_single_holder.
+
+Theorem C02_single_holder_meaning : forall tp ch, UniqueTopic tp -> In ch (t_chans tp) ->
+  NoDup (map (fun e => m_id (i_msg e)) (c_ifl ch)) /\
+  (forall e, In e (c_ifl ch) -> ~ In (m_id (i_msg e)) (map m_id (c_queue ch)) /\ ~ In (m_id (i_msg e)) (c_fin ch)) /\
+  (forall m, In m (c_queue ch) -> ~ In (m_id m) (c_fin ch)).
+Proof. exact unique_meaning. Qed.
+Print Assumptions C02_single_holder_meaning.
+
+(* the only steps that put a message (back) into a channel's queue *)
+Theorem C02_delivery_needs_queue : forall cfg s k id now s' att,
+  step cfg s (ODeliver k id now) = (s', RDelivered att) ->
+  exists kl t c ch m q', find_client s k = Some kl /\ k_sub kl = Some (t, c) /\ get_chan s t c = Some ch /\
+    remove_msg id (c_queue ch) = Some (m, q') /\ att = m_att (bump m).
+Proof. exact delivery_from_queue. Qed.
+Print Assumptions C02_delivery_needs_queue.
 
 (* every delivery carries an attempts count exactly one higher than the previous one
    (starting at 1; the count is 16 bits wide on the wire and on disk) *)
@@ -39,6 +64,7 @@ Example C02_witness :
   let ops := [OCreateTopic 1 false; OCreateChan 1 1 false false 0%Z; OConnect 1 60000000000%Z; OConnect 2 60000000000%Z;
               OSub 1 1 1 false false 0%Z; OSub 2 1 1 false false 0%Z; ORdy 1 1%Z; ORdy 2 1%Z;
               OPub 1 false [5] 3 0%Z 1%Z; ODeliver 1 5 2%Z] in
+  fresh_history [] ops = true /\
   map snd [step cfg (run cfg init ops) (OFin 2 5); step cfg (run cfg init ops) (ODeliver 2 5 3%Z);
            step cfg (run cfg init ops) (OFin 1 5)] = [RFailed; RNotEnabled; ROk].
-Proof. vm_compute. reflexivity. Qed.
+Proof. split; vm_compute; reflexivity. Qed.
